@@ -49,7 +49,14 @@ class Analysis:
         self.h = world.history
         self.ia = {ia['id']: ia for ia in self.plan.get('interactions', [])}
         self.by_kind = defaultdict(list)
+        # application-level verdicts only look at what happened before the harness tore the
+        # connection down at the end of the run (the 'settled' mark)
+        self.settled_seq = next((ev['seq'] for ev in self.h if ev['k'] == 'mark' and ev.get('what') == 'settled'),
+                                float('inf'))
         for ev in self.h:
+            if ev['seq'] > self.settled_seq and ev['k'] in ('sub', 'pub', 'fut', 'hnd', 'act', 'log', 'loopexc'):
+                self.by_kind['post_' + ev['k']].append(ev)
+                continue
             self.by_kind[ev['k']].append(ev)
         self.conn_fault = bool(self.by_kind.get('fault')) and any(
             e['what'] in ('cut', 'close', 'reset', 'eof', 'ws_error') for e in self.by_kind['fault'])
@@ -128,6 +135,8 @@ def planned_elements(iid, direction, script):
     start = script.get('start_idx', 0)
     count = script.get('count', 0)
     error_at = script.get('error_at')
+    if error_at is not None and error_at >= count and script.get('end') == 'flag' and count > 0:
+        error_at = None  # the last element carried the complete flag: the stream ended before the error
     n = count if error_at is None else min(count, error_at)
     return [expected_payload(iid, direction, start + k, script) for k in range(n)], error_at
 
@@ -799,77 +808,140 @@ def _describe_sid(an, ep, sid):
 # C13: stream ids
 # ------------------------------------------------------------------------------------------
 
-class RefAllocator:
-    def __init__(self, first, maximum):
-        self.cur = (first - 2) & 0x7FFFFFFF
-        self.max = maximum
-        self.parity = first % 2
-
-    def next(self, live):
-        """First free id after the cursor, step 2, wrapping at max (mask), skipping 0 and live ids."""
-        cur = self.cur
-        for _ in range(self.max // 2 + 2):
-            cur = (cur + 2) & self.max
-            if cur != 0 and cur not in live:
-                return cur
-        return None
-
-
 def oracle_c13(an):
+    """Ids on request frames vs a reference allocator.
+
+    The allocator consults the endpoint's table of active streams.  From outside that table is
+    known exactly except for short windows (fire-and-forget between its transmission and the
+    completion callback; channels while directions close), so two sets are tracked:
+    must_live (certainly active) and maybe_live (not certainly finished).  The id handed out must
+    be the first id after the previous one (step 2, wrapping at the maximum, skipping 0) that is
+    not active: every id skipped on the way must be in maybe_live, the id chosen must not be in
+    must_live."""
     out = []
     V = lambda cls, msg, seq=None, **f: out.append(Violation('C13', 'C13.' + cls, msg, seq, **f))
     for ep in ('client', 'server'):
         cfg = an.plan.get(ep, {})
         maximum = cfg.get('max_sid') or 0x7FFFFFFF
         first = 1 if ep == 'client' else 2
-        ref = RefAllocator(first, maximum)
+        cursor = (first - 2) & 0x7FFFFFFF
         if cfg.get('sid_start') is not None:
-            ref.cur = cfg['sid_start']
+            cursor = cfg['sid_start']
         resync = False
-        # live set from the emitter's StreamModel: ids opened by either side and not yet terminated
-        live = set()
-        model = _LiveModel(an, ep)
+        st = {}  # sid -> dict(kind, must, own_done, peer_done)
+        facts0 = dict(ep=ep, max_sid=maximum)
+
+        def maybe_live():
+            return {sid for sid, x in st.items()}
+
+        def must_live():
+            return {sid for sid, x in st.items() if x['must']}
+
         for ev in an.h:
-            model.feed(ev)
             k = ev['k']
-            if k == 'act' and ev.get('what') == 'request_failed' and ev['ep'] == ep:
-                if 'StreamAllocationFailure' in ev.get('err', ''):
-                    if ref.next(model.live_all()) is not None:
-                        V('allocation_failed_with_free_id', 'allocation failed though id %d is free'
-                          % ref.next(model.live_all()), ev['seq'], ep=ep)
+            if ev['seq'] > an.settled_seq:
+                break
+            if k == 'act' and ev.get('ep') == ep and ev.get('what') == 'request_failed':
+                if 'AllocationFailure' in (ev.get('err') or ''):
+                    ml = maybe_live()
+                    free = [c for c in range(first, maximum + 1, 2) if c not in ml]
+                    if free:
+                        V('allocation_failed_with_free_id', 'allocation failed though id(s) %s are free' % free[:4],
+                          ev['seq'], **facts0)
+                    an.world.probe('alloc_failure')
                     resync = True
-            if k == 'enq' and ev['ep'] == ep and ev['f']['type'] in REQ_TYPES:
-                sid = ev['f']['sid']
-                facts = dict(ep=ep, max_sid=maximum)
-                if sid == 0:
-                    V('zero_id', 'request frame on stream id 0', ev['seq'], **facts)
+                continue
+            if k == 'fut' and ev.get('ep') == ep and ev.get('state') == 'sent' and ev.get('role') == 'requester':
+                iid = ev.get('iid')
+                if iid in an.sid_of and an.sid_of[iid][0] == ep and an.ia[iid]['kind'] == 'fnf':
+                    st.pop(an.sid_of[iid][1], None)
+                continue
+            if k == 'tx' and ev['ep'] == ep:
+                f = ev['f']
+                x = st.get(f['sid'])
+                if x is not None and x['kind'] == 'fnf' and not f.get('follows'):
+                    x['must'] = False
+                continue
+            if k == 'rx' and ev['ep'] == ep:
+                f = ev['f']
+                sid, t = f['sid'], f['type']
+                x = st.get(sid)
+                if x is None or sid % 2 != first % 2:
                     continue
-                if sid % 2 != first % 2:
-                    V('wrong_parity', '%s allocated id %d' % (ep, sid), ev['seq'], **facts)
-                if sid > maximum:
-                    V('beyond_maximum', 'id %d beyond the maximum %d' % (sid, maximum), ev['seq'], **facts)
-                if sid in model.live_before(ev):
-                    V('live_id_reused', 'id %d allocated while still active' % sid, ev['seq'], **facts)
+                term = t == 'ERROR' or (t == 'PAYLOAD' and not f.get('follows') and (f.get('complete') or x['kind'] == 'rr'))
+                if x['kind'] in ('rr', 'stream'):
+                    if term:
+                        del st[sid]
+                elif x['kind'] == 'channel':
+                    if t == 'ERROR' or (t == 'PAYLOAD' and f.get('complete') and not f.get('follows')):
+                        x['peer_done'] = True
+                        x['must'] = False
+                    elif t == 'CANCEL':
+                        x['own_done'] = True
+                        x['must'] = False
+                    if x['own_done'] and x['peer_done']:
+                        del st[sid]
+                continue
+            if k == 'enq' and ev['ep'] == ep:
+                f = ev['f']
+                sid, t = f['sid'], f['type']
+                if t in REQ_TYPES:
+                    facts = dict(facts0, type=t)
+                    if sid == 0:
+                        V('zero_id', 'request frame on stream id 0', ev['seq'], **facts)
+                        continue
+                    if sid % 2 != first % 2:
+                        V('wrong_parity', '%s allocated id %d' % (ep, sid), ev['seq'], **facts)
+                        continue
+                    if sid > maximum:
+                        V('beyond_maximum', 'id %d beyond the maximum %d' % (sid, maximum), ev['seq'], **facts)
+                    if sid in must_live():
+                        V('live_id_reused', 'id %d allocated while still active' % sid, ev['seq'], **facts)
+                    elif not resync:
+                        ml = maybe_live()
+                        c = cursor
+                        steps = 0
+                        ok = False
+                        while steps <= maximum // 2 + 2:
+                            c = (c + 2) & maximum
+                            steps += 1
+                            if c == sid:
+                                ok = True
+                                break
+                            if c != 0 and c not in ml:
+                                break
+                        if not ok:
+                            V('not_next_free_id', 'id %d allocated after %d although %d is free (wrap at %d)'
+                              % (sid, cursor, c, maximum), ev['seq'], **facts)
+                        if ok and sid < cursor:
+                            an.world.probe('id_wrapped')
+                        if ok and steps > 1:
+                            an.world.probe('id_skipped_live')
+                    resync = False
+                    cursor = sid
+                    if t == 'REQUEST_FNF':
+                        # fire-and-forget ids are handed out but never entered in the table of
+                        # active streams (nothing can arrive for them): not tracked as live
+                        continue
+                    st[sid] = {'kind': KIND_BY_TYPE[t], 'must': True, 'own_done': bool(f.get('complete')) and t == 'REQUEST_CHANNEL',
+                               'peer_done': False}
+                    continue
+                x = st.get(sid)
+                if x is None or sid % 2 != first % 2:
+                    continue
+                if x['kind'] in ('rr', 'stream'):
+                    if t == 'CANCEL':
+                        del st[sid]
+                elif x['kind'] == 'channel':
+                    if t == 'CANCEL':
+                        x['peer_done'] = True
+                        x['must'] = False
+                    elif t == 'ERROR' or (t == 'PAYLOAD' and f.get('complete')):
+                        x['own_done'] = True
+                        x['must'] = False
+                    if x['own_done'] and x['peer_done']:
+                        del st[sid]
     return out
-
-
-class _LiveModel:
-    """Which stream ids are active on endpoint `ep`, from its own enqueue/receive records.
-    An id is active from its request frame until the interaction terminated on this endpoint."""
-
-    def __init__(self, an, ep):
-        self.ep = ep
-        self.live = {}
-        self.an = an
-
-    def live_all(self):
-        return set(self.live)
-
-    def live_before(self, ev):
-        return set(self.live)
-
-    def feed(self, ev):
-        pass
 
 
 # registry ------------------------------------------------------------------------------
@@ -881,4 +953,5 @@ ORACLES = {
     'C06': oracle_c06,
     'C08': oracle_c08,
     'C10': oracle_c10,
+    'C13': oracle_c13,
 }
